@@ -21,10 +21,12 @@ type Spec struct {
 	Sample   time.Duration `json:"sample"`   // quiescent sampling period
 	Hang     time.Duration `json:"hang,omitempty"`
 	// Premises that hold for this spec (decide which oracles apply).
-	Benign    bool     `json:"benign,omitempty"`     // C02/C07 premise: latency<H/2, no faults, no outsider, no health/conn
-	NoPreempt bool     `json:"no_preempt,omitempty"` // no takeover-enabled instance
-	Prompt    bool     `json:"prompt,omitempty"`     // C10 promptness premise (l<=H/20, fault free)
-	Tags      []string `json:"tags,omitempty"`
+	Benign    bool `json:"benign,omitempty"`     // C02/C07 premise: latency<H/2, no faults, no outsider, no health/conn
+	NoPreempt bool `json:"no_preempt,omitempty"` // no takeover-enabled instance
+	Prompt    bool `json:"prompt,omitempty"`     // C10 promptness premise (l<=H/20, fault free)
+	// PromptAfter: the promptness premise holds from this virtual time on (faults before it)
+	PromptAfter time.Duration `json:"prompt_after,omitempty"`
+	Tags        []string      `json:"tags,omitempty"`
 	// Amplifier: at gofail sites inside the library (see DESIGN §5) sleep a random
 	// virtual duration in [0, YieldMax] with probability YieldP.
 	YieldP   float64       `json:"yield_p,omitempty"`
@@ -56,6 +58,9 @@ type InstSpec struct {
 	// running for this long before it returns (a user task that is slow to wind down)
 	PromoteLinger time.Duration `json:"promote_linger,omitempty"`
 	DemoteDelay   time.Duration `json:"demote_delay,omitempty"`
+	// LateCallbacks: OnPromote/OnDemote are not registered before Start but by a later
+	// "register" action (possibly in the middle of a term)
+	LateCallbacks bool `json:"late_callbacks,omitempty"`
 }
 
 // Action kinds:
